@@ -161,6 +161,8 @@ type World struct {
 	stage  int
 	rej    int
 	rl     []int
+	skip   []bool
+	lags   int
 	rng    *rand.Rand
 	Panics []string
 	Calls  int
@@ -255,7 +257,7 @@ func NewWorldHold(cfg Cfg, seed int64, lag int64, hold int) (*World, error) {
 	}
 	w := &World{Cfg: cfg, Seed: seed, Nodes: map[int]*Node{}, privs: map[int]*ecdsa.PrivateKey{}, encs: map[int]*ecies.PrivateKey{},
 		polys: map[int]*shcrypto.Polynomial{}, poly2: map[int]*shcrypto.Polynomial{}, polyBD: map[int]*shcrypto.Polynomial{},
-		rng: rand.New(rand.NewSource(seed)), rl: make([]int, cfg.N)}
+		rng: rand.New(rand.NewSource(seed)), rl: make([]int, cfg.N), skip: make([]bool, cfg.N)}
 	keyord := []string{sm.NoVal}
 	for i := 1; i <= cfg.N; i++ {
 		w.toks = append(w.toks, tokOf(i))
@@ -919,7 +921,36 @@ func (w *World) State() J {
 			blk = append(blk, w.absEvents(o.Height, r.Events)...)
 		}
 	}
-	return J{"h": w.RelH(), "stage": w.stage, "rej": w.rej, "rl": append([]int{}, w.rl...), "kp": kp, "app": w.absApp(), "blk": blk}
+	syncs := make([]int, w.Cfg.N)
+	low := w.RelH() - 1
+	for i := 1; i <= w.Cfg.N; i++ {
+		syncs[i-1] = -1
+		if n := w.Nodes[i]; n != nil {
+			h := int64(-1 << 40)
+			n.PG.View(func(db *fakepg.DB) {
+				for _, m := range db.TendermintSyncMeta {
+					if m.CurrentBlock > h {
+						h = m.CurrentBlock
+					}
+				}
+			})
+			syncs[i-1] = int(h - w.H0)
+			if syncs[i-1] < low {
+				low = syncs[i-1]
+			}
+		}
+	}
+	backlog := []J{}
+	for h := low + 1; h <= int(w.Chain.Height()-w.H0); h++ {
+		b := w.Chain.Blocks[w.H0+int64(h)-1]
+		evs := []Msg{}
+		for _, r := range b.Results {
+			evs = append(evs, w.absEvents(b.Height, r.Events)...)
+		}
+		backlog = append(backlog, J{"h": h, "evs": evs})
+	}
+	return J{"h": w.RelH(), "stage": w.stage, "rej": w.rej, "rl": append([]int{}, w.rl...), "lags": w.lags,
+		"skip": append([]bool{}, w.skip...), "sync": syncs, "backlog": backlog, "kp": kp, "app": w.absApp(), "blk": blk}
 }
 
 func rank(o Op, n int) int {
@@ -936,8 +967,10 @@ func rank(o Op, n int) int {
 		return 4*n + o.S
 	case "reload":
 		return 5*n + o.S
+	case "lag":
+		return 6*n + o.S
 	}
-	return 6*n + 1
+	return 7*n + 1
 }
 
 // Apply executes one op on the real world.
@@ -955,10 +988,24 @@ func (w *World) Apply(o Op) Out {
 		w.Chain.CloseBlock()
 		w.stage = 0
 		if rel < w.Cfg.LastBlock() {
-			w.syncAll()
+			for i := 1; i <= w.Cfg.N; i++ {
+				if n := w.Nodes[i]; n != nil && !w.skip[i-1] {
+					w.syncNode(n) // one call catches up on every block the keyper has not applied yet
+				}
+			}
+		}
+		for i := range w.skip {
+			w.skip[i] = false
 		}
 		if rel < w.Cfg.LastBlock() {
 			w.Chain.OpenBlock()
+		}
+		return out
+	case "lag":
+		w.stage = rank(o, w.Cfg.N)
+		if w.Nodes[o.S] != nil {
+			w.skip[o.S-1] = true
+			w.lags++
 		}
 		return out
 	case "reload":
